@@ -225,6 +225,10 @@ BOUNDED = [
      'history quantifier of C10/C06 on FftPlannerScalar<f64>: every request sequence of length <= 2 over 14 related lengths x 2 directions and of length 3 over 6 lengths x 2 directions (thorough: 20 / 11 lengths): no panic, right length and direction, output bit-identical to a fresh planner'),
     ('shapes', ['C03', 'C09', 'C15'], 'shapes:96', 'shapes:700',
      'real transforms (all 21 butterflies, Dft, every FftPlannerScalar<f64> length below the limit) called through the three explicit-scratch entry points with canary-guarded caller buffers in every shape around the valid one (data lengths 0,1,n-1,n,n+1,2n-1,2n,2n+1,3n; output equal / +-1 / +-n; scratch 0, adv-1, adv, adv+1): ill-shaped panics, well-shaped returns, canaries and immutable input intact; debug-assertion UB checks of get_unchecked abort the run and are reported'),
+    ('helpers_small', ['C03', 'C07', 'C09', 'C15'], 'helpers_small', 'helpers_small',
+     'the 15 helper functions of array_utils/fft_helper/common against the executable reading of their contracts: all data/output lengths <= 12 (zip: <= 8), chunk sizes <= 5, scratch <= 3 (exhaustive in that box); up to 12 chunks'),
+    ('chunks', ['C07', 'C12'], 'chunks:96', 'chunks:700',
+     'C07 on real transforms (21 butterflies, Dft, every FftPlannerScalar<f64> length below the limit): a k-chunk call (k <= 6) equals k single-chunk calls bit for bit on the three explicit-scratch entry points'),
     ('sqrt_limit', ['C04'], 'sqrt_limit', 'sqrt_limit', 'A-sqrt: ((m*m) as f32).sqrt() as usize >= m for every m < 2^24 on this CPU (exhaustive)'),
     ('MixedRadix', ['C08', 'C09', 'C12'], 'MixedRadix', 'MixedRadix', 'scratch-content independence (C08 iii) and panic-freedom of the real wrapper over contract-checking stubs; bound: inner lengths <= 4, inner scratch needs in {0,1,len-1,len,len+1,2len+3,3len^2+1}'),
     ('MixedRadixSmall', ['C08', 'C09', 'C12'], 'MixedRadixSmall', 'MixedRadixSmall', 'same, MixedRadixSmall'),
